@@ -240,8 +240,8 @@ for _k in ('DynamicTimeSeriesBucket', 'DynamicBucket', 'DynamicBucketDataset'):
     SEARCHES[_k] = _bucket_search
 
 
-PROP_SEARCH = {'C09': 'isolation', 'C10': 'cache_histories', 'C14': 'catch_epochs', 'C15': 'split_exhaustive',
-               'C18': 'sort_group', 'C20': 'profiling_transparency', 'C19': 'database'}
+PROP_SEARCH = {'C09': 'c09_native', 'C10': 'cache_histories', 'C14': 'catch_epochs', 'C15': 'split_exhaustive',
+               'C18': 'sort_group', 'C20': 'c20_native', 'C19': 'database', 'C02': 'c02_native'}
 
 
 def _prop_search(rep):
